@@ -106,14 +106,23 @@ def check_order(ck, prog):
     g2 = graph(prog, f, [ks], [{"success": [1]}], values={"io_sync_dest": [1]})
     bad = False
     sync_calls = call_blocks(f, "io_sync_dest")
+    closeb = {b.id for (b, i, c) in call_blocks(f, "io_close_dest")}
     for (b, i, c) in sync_calls:
-        # states right after the element containing the call
-        for n in g2.nodes:
-            if n[0] == b.id:
-                for s in g2.transfer_block(b.id, n[1], upto=i + 2):
-                    v = g2.get(s, "success")
-                    if v is None or 1 in v:
-                        bad = True
+        # product-graph nodes reachable from the call (io_sync_dest() forced to fail) up to the io_close_dest() call: the
+        # state that arrives there must have success == false, wherever between the two the flag is cleared
+        seen_, st_ = set(), [n for n in g2.nodes if n[0] == b.id]
+        while st_:
+            n = st_.pop()
+            if n in seen_:
+                continue
+            seen_.add(n)
+            if n[0] in closeb and n[0] != b.id:
+                v = g2.get(n[1], "success")
+                if v is None or 1 in v:
+                    bad = True
+                continue
+            for (d_, l_) in g2.succ.get(n, ()):
+                st_.append(d_)
     ck.ob("C17-ORDER", "sync-failure-clears-success", bool(sync_calls) and not bad, common.where(f),
           "a failed io_sync_dest() leaves success == false" if not bad else
           "success can stay true after io_sync_dest() failed", key="ORDER:sync-fails")
@@ -121,6 +130,20 @@ def check_order(ck, prog):
     gs_sync = guard.find_test(f, "var:opt_synchronous", "F")
     syncb = {b.id for (b, i, c) in sync_calls}
     okg = bool(gs_sync) and all(f.blocks[x.bid].succs[0] in syncb for x in gs_sync)
+    if not okg and gs_sync:
+        # the test may sit in a static helper's caller or be combined with the call (`opt_synchronous && io_sync_dest()`):
+        # what matters is that the sync call is reachable from the true edge without another deciding condition
+        def straight(x0):
+            hops = 0
+            while x0 is not None and hops < 4:
+                if x0 in syncb:
+                    return True
+                ss = [y for y in f.blocks[x0].succs if y is not None]
+                if len(ss) != 1:
+                    return False
+                x0, hops = ss[0], hops + 1
+            return False
+        okg = all(straight(f.blocks[x.bid].succs[0]) for x in gs_sync)
     ck.ob("C17-ORDER", "sync-if-enabled", okg, common.where(f),
           "`if (opt_synchronous)` directly guards io_sync_dest()", key="ORDER:sync-enabled")
     # (4) order of the calls: attrs -> sync -> close dest -> close src (no backward reachability)
